@@ -166,6 +166,74 @@ Definition infer_act (cfg : settings) (act : activity) (st : rstate) (ss : list 
 Definition infer (cfg : settings) (st : rstate) (ss : list stmt) : rstate * bool :=
   infer_act cfg quiet st ss.
 
+(** ** infer with shard inference (automatic_sharding_key), query_router.rs:492-619 (98f5281)
+
+    With automatic_sharding_key set, infer also calls infer_shard / infer_shard_on_write per
+    statement and handle_inferred_shard.  Their outcome per statement is an oracle input
+    [sho i]: no key found, a shard, or an error (assignment_parser: "Sharding key cannot be
+    updated").  The first problem (an error, or a shard different from the previous one) is
+    recorded in [shard_error]; afterwards shard inference is skipped, the loop goes on, and
+    the error is returned at the end.  The role assignments are the ones of [infer_loop]:
+    theorem c05_role_independent_of_shards. *)
+Inductive shres := ShNone | ShSome (n : nat) | ShErr.
+
+Record shst := {
+  sh_active : option nat;   (* active_shard *)
+  sh_prev : option nat;     (* prev_inferred_shard *)
+  sh_err : bool             (* shard_error.is_some() *)
+}.
+
+(** the [match &self.pool_settings.automatic_sharding_key { Some(_) if shard_error.is_none() => .. }]
+    arms (567-580, 595-609) with handle_inferred_shard (621-640) *)
+Definition shard_step (auto : bool) (r : shres) (s : shst) : shst :=
+  if auto && negb (sh_err s)
+  then match r with
+       | ShErr => {| sh_active := sh_active s; sh_prev := sh_prev s; sh_err := true |}
+       | ShNone => s
+       | ShSome n =>
+           match sh_prev s with
+           | Some p => if Nat.eqb p n
+                       then {| sh_active := Some n; sh_prev := Some n; sh_err := false |}
+                       else {| sh_active := sh_active s; sh_prev := sh_prev s; sh_err := true |}
+           | None => {| sh_active := Some n; sh_prev := Some n; sh_err := false |}
+           end
+       end
+  else s.
+
+Fixpoint infer_sh_loop (cfg : settings) (act : activity) (auto : bool) (sho : nat -> shres)
+         (i : nat) (pin visited : bool) (st : rstate) (sh : shst) (ss : list stmt) : rstate * shst :=
+  match ss with
+  | [] => (st, sh)
+  | SStartTxn :: _ => (set_role st (Some Primary), sh)
+  | SQuery q :: rest =>
+      if pin then infer_sh_loop cfg act auto sho (S i) pin visited st sh rest
+      else if a_hot act i
+      then infer_sh_loop cfg act auto sho (S i) true visited (set_role st (Some Primary)) sh rest
+      else
+        let sh' := shard_step auto (sho i) sh in       (* after the role decision *)
+        if is_write_query q
+        then infer_sh_loop cfg act auto sho (S i) pin true (set_role st (Some Primary)) sh' rest
+        else if visited
+        then infer_sh_loop cfg act auto sho (S i) pin visited st sh' rest
+        else infer_sh_loop cfg act auto sho (S i) pin visited (set_role st (read_role cfg st)) sh' rest
+  | SOther :: rest =>
+      infer_sh_loop cfg act auto sho (S i) pin true (set_role st (Some Primary))
+                    (shard_step auto (sho i) sh) rest
+  end.
+
+(** result: router state, active_shard, and [true] iff infer returns Err (empty query, or
+    the recorded shard error) *)
+Definition infer_sh (cfg : settings) (act : activity) (auto : bool) (sho : nat -> shres)
+           (st : rstate) (shard : option nat) (ss : list stmt) : rstate * option nat * bool :=
+  if negb (s_splitting cfg) then (st, shard, false)
+  else match ss with
+       | [] => (set_role st (Some Primary), shard, true)
+       | _ => let st0 := if a_init act then set_role st (Some Primary) else st in
+              let r := infer_sh_loop cfg act auto sho 0 (a_init act) false st0
+                         {| sh_active := shard; sh_prev := None; sh_err := false |} ss in
+              (fst r, sh_active (snd r), sh_err (snd r))
+       end.
+
 (** ** The gating in client.rs (outer loop, 939-1052)
 
     One [item] = one iteration of the outer loop that ends in [continue] (custom command)
